@@ -165,7 +165,7 @@ def facet_dispatch(ctx):
                 res.finding('R-EXH.facets', f.fq, "facet tables are never written at class level (a base type's table would shadow a derived type's through the MRO)",
                             short(w.node, 90), key=f"R-EXH.facets|class-level-write|{f.qualname}|{w.field}", line=w.node.lineno)
     gperm = unparse(gp.node)
-    res.check("child.tag == 'enumeration'" in gperm and "get_attributes()['value']" in gperm, 'R-EXH.facets', gp.fq,
+    res.check(re.search(r"(\w+)\.tag == 'enumeration'", gperm) is not None and re.search(r"(\w+)\.get_attributes\(\)\['value'\]", gperm) is not None, 'R-EXH.facets', gp.fq,
               "the permitted list is the value= of every enumeration child", key='R-EXH.facets|get_permitted')
 
 
@@ -442,9 +442,23 @@ def gate_identity(ctx):
     res.floor('R-DOM.checked-is-stored chained setters', n_chain, 6)
     # the union gate tries every member and accepts iff one accepts
     cv = sm.func('XSDSimpleType', '_check_value', T.M_SIMPLE)
-    txt = unparse(cv.node)
-    res.check('for t_ in self._UNION' in txt and 'raise ValueError(self._get_error_class(), errors)' in txt, 'R-DOM.checked-is-stored', cv.fq,
-              "a union value is accepted iff one member type accepts it, else ValueError", key='R-DOM.checked-is-stored|union')
+    vparam = cv.params[1]
+    ok = False
+    for loop in [n for n in ast.walk(cv.node) if isinstance(n, ast.For) and unparse(n.iter) == 'self._UNION']:
+        member = unparse(loop.target)
+        tries = [t for t in loop.body if isinstance(t, ast.Try)]
+        if len(tries) == 1:
+            t = tries[0]
+            calls = [s for s in t.body if isinstance(s, ast.Expr) and isinstance(s.value, ast.Call) and unparse(s.value.func) == member and [unparse(a) for a in s.value.args] == [vparam]]
+            accepts = any(isinstance(s, ast.Return) for s in t.body)
+            handled = {unparse(h.type) for h in t.handlers}
+            ok = bool(calls) and accepts and handled == {'TypeError', 'ValueError'}
+    g = cfg_of(cv.node)
+    union_tests = [n for n in g.stmt_nodes() if n.kind == 'test' and unparse(n.ast) == 'self._UNION']
+    raises_after = bool(union_tests) and all(g.exit not in g.reachable([m for m, lab in g.succ[t] if lab == 'T'][0], avoid=[x for x in g.stmt_nodes() if x.kind == 'return'])
+                                             for t in union_tests)
+    res.check(ok and raises_after, 'R-DOM.checked-is-stored', cv.fq, "a union value is accepted iff one member type accepts it (TypeError/ValueError of a member are "
+              "skipped), else ValueError", key='R-DOM.checked-is-stored|union')
     # renderer: text and attribute values go through str() of the stored value
     ce = sm.func('XMLElement', '_create_et_xml_element', T.M_XMLELEMENT)
     texts = [n for n in ast.walk(ce.node) if isinstance(n, ast.Assign) and unparse(n.targets[0]).endswith('.text')]
